@@ -1,8 +1,55 @@
 """C15 native replay: virtual-time timers around a real ResponseFuture with silent servers."""
+import types
 from contracts.native import rf
 
 
+def _replay_borrow_wait():
+    """real HostConnection.borrow_connection on a connection without a free stream id; the clock is driven by the waits"""
+    import cassandra.pool as pool_mod
+    from contracts.native.c12 import Conn, mk_pool
+    fails = []
+    c = Conn('full', in_flight=100)
+    c.max_request_id = 100
+    c.orphaned_threshold_reached = False
+    p = mk_pool(c, [])
+    clock = [5000.0]
+    waits = []
+
+    class Cond(object):
+        def __enter__(self):
+            return self
+
+        def __exit__(self, *a):
+            return False
+
+        def wait(self, t=None):
+            waits.append((clock[0], t))
+            if len(waits) > 50:
+                raise RuntimeError('still waiting')
+            clock[0] += 0.4 if t is None else min(t, 0.4)      # woken early each time
+    p._stream_available_condition = Cond()
+    real = pool_mod.time.time
+    pool_mod.time = types.SimpleNamespace(time=lambda: clock[0], sleep=lambda s: None)
+    try:
+        try:
+            p.borrow_connection(1.0)
+            fails.append('a stream was handed out on a full connection')
+        except pool_mod.NoConnectionsAvailable:
+            pass
+        except RuntimeError:
+            fails.append('borrow_connection(timeout=1.0) on a full connection is still waiting after %d waits (%.1f s on the clock)' % (len(waits), clock[0] - 5000.0))
+        late = [(at - 5000.0, t) for at, t in waits if t is None or t < 0 or at + t > 5000.0 + 1.0 + 1e-9]
+        if late:
+            fails.append('borrow_connection(timeout=1.0) waited past its deadline: (seconds since start, wait) = %r' % (late[:3],))
+    finally:
+        import time as _t
+        pool_mod.time = _t
+    return {'reproduced': bool(fails), 'detail': '; '.join(fails[:2]) or 'every wait ended by the deadline'}
+
+
 def replay(model, obligation):
+    if 'borrow_connection-wait' in obligation:
+        return _replay_borrow_wait()
     cl = rf.load_cluster()
     fails = []
     import time as _time
